@@ -209,7 +209,9 @@ class Interp:
 
     def body(self, api, n, fn, args, kwargs):
         """The user function of call node n."""
-        obs = [fn, list(args), dict(kwargs)]
+        # what the function "does" with its arguments depends on them only up to JSON equality
+        # (1 == 1.0), as the library's contract requires; C07 checks the received objects type-exactly
+        obs = [fn, jnorm(list(args)), jnorm(dict(kwargs))]
         self.invocations.append([fn, api.target_rel(), jcopy(list(args)), jcopy(dict(kwargs))])
         if n.get('usever'):
             # behaviour depends on the version only up to JSON equality (user obligation)
@@ -242,18 +244,20 @@ class Interp:
         return obs
 
 
-def vtoken(v):
-    def norm(x):
-        if isinstance(x, bool) or x is None or isinstance(x, str):
-            return x
-        if isinstance(x, float) and x.is_integer():
-            return int(x)
-        if isinstance(x, (list, tuple)):
-            return [norm(y) for y in x]
-        if isinstance(x, dict):
-            return {k: norm(y) for k, y in x.items()}
+def jnorm(x):
+    if isinstance(x, bool) or x is None or isinstance(x, str):
         return x
-    return canon(norm(v))
+    if isinstance(x, float) and x.is_integer():
+        return int(x)
+    if isinstance(x, (list, tuple)):
+        return [jnorm(y) for y in x]
+    if isinstance(x, dict):
+        return {k: jnorm(y) for k, y in x.items()}
+    return x
+
+
+def vtoken(v):
+    return canon(jnorm(v))
 
 
 def jcopy(v):
